@@ -138,7 +138,13 @@ func runLoop(c *rig.Ctx, cs Case) verdict {
 	if cs.Run == nil || len(cs.Run.Versions) == 0 {
 		return pass
 	}
-	vs := cs.Run.Versions
+	st := newStamper(cs.Stamp)
+	var vs []WObj
+	var objs []*proxyv1alpha1.UpstreamCluster
+	for _, o := range cs.Run.Versions {
+		e, obj := st.write(o)
+		vs, objs = append(vs, e), append(objs, obj)
+	}
 	name := vs[0].Name
 	latest := vs[len(vs)-1]
 	u := universeOf(vs, cs.Probes)
@@ -160,7 +166,7 @@ func runLoop(c *rig.Ctx, cs Case) verdict {
 	// what a fresh gateway makes of the latest version
 	var fci *clusters.ClusterInfo
 	var ferr error
-	_, fp := rig.Recover(func() { fci, ferr = clusters.CreateClusterInfo(latest.Real("1"), cheapHealthCheck, cs.Global, nil) })
+	_, fp := rig.Recover(func() { fci, ferr = clusters.CreateClusterInfo(objs[len(objs)-1].DeepCopy(), cheapHealthCheck, cs.Global, nil) })
 	if fp || ferr != nil {
 		stopCluster(fci)
 		return inconclusive("latest-version-not-applicable")
@@ -182,7 +188,7 @@ func runLoop(c *rig.Ctx, cs Case) verdict {
 		return &o
 	}
 
-	if _, err := api.Create(ctx, vs[0].Real(""), metav1.CreateOptions{}); err != nil {
+	if _, err := api.Create(ctx, objs[0].DeepCopy(), metav1.CreateOptions{}); err != nil {
 		return inconclusive("fake-clientset-create")
 	}
 	if !waitFor(func() bool { return atomic.LoadInt64(&g.finished) >= 1 }, 20*time.Second) {
@@ -195,7 +201,7 @@ func runLoop(c *rig.Ctx, cs Case) verdict {
 			g.lister.armed = true
 			g.lister.mu.Unlock()
 		}
-		if _, err := api.Update(ctx, vs[i].Real(""), metav1.UpdateOptions{}); err != nil {
+		if _, err := api.Update(ctx, objs[i].DeepCopy(), metav1.UpdateOptions{}); err != nil {
 			return inconclusive("fake-clientset-update")
 		}
 		if i == cs.Run.Hold {
@@ -292,7 +298,7 @@ func runLoop(c *rig.Ctx, cs Case) verdict {
 // genRun: a burst of applicable versions of one cluster. Pinned cases hold the handler of one middle version;
 // natural cases make a middle version heavy (many endpoints) and leave the rest to the scheduler.
 func genRun(r *rand.Rand, pinned bool) (Case, []string) {
-	cs := Case{Mode: "run", Global: rig.Pick(r, []string{"", "remote"}), Probes: genProbes(r)[:5]}
+	cs := Case{Mode: "run", Global: rig.Pick(r, []string{"", "remote"}), Probes: genProbes(r)[:5], Stamp: true}
 	n := 3 + r.Intn(3)
 	var vs []WObj
 	cur := genObj(r, "c.example", false)
